@@ -482,8 +482,11 @@ class Ctx:
         if self.prop == "C18" and _first_op(res) is not None:
             return self.snapshot_eval(lambda: result_digest(res))
         self.harness_depth += 1
+        import warnings
         try:
-            return result_digest(res)
+            with np.errstate(all="warn"), warnings.catch_warnings():  # neutral numeric environment, restored afterwards
+                warnings.simplefilter("ignore")
+                return result_digest(res)
         finally:
             self.harness_depth -= 1
 
@@ -1037,6 +1040,10 @@ class Ctx:
                     res = body()
                     n = ALLOC.disarm()[0]
                     self.harness_depth += 1
+                    # digests are always taken under the observer's neutral numeric environment (this child exits next)
+                    import warnings
+                    np.seterr(all="warn")
+                    warnings.simplefilter("ignore")
                     out = ["ok", result_digest(res)]
                 except BaseException as e:  # noqa
                     n = ALLOC.disarm()[0]
